@@ -230,6 +230,13 @@ def refusal_precedes_queueing(chk: Check, repo: Repo, mr) -> None:
         an = None
         qs: list[tuple[int, ast.Call]] = []
         rs: list[tuple[int, ast.Call]] = []
+        # a generator expression bound to a local runs where it is consumed, not where it is written: its calls belong
+        # to every node that reads the name (a `for` over it converts one element per iteration - between the sends)
+        lazy: dict[str, list[ast.Call]] = {}
+        for st in walk_local(f.node):
+            if isinstance(st, ast.Assign) and len(st.targets) == 1 and isinstance(st.targets[0], ast.Name) and isinstance(st.value, ast.GeneratorExp):
+                lazy.setdefault(st.targets[0].id, []).extend(c for c in ast.walk(st.value) if isinstance(c, ast.Call))
+        lazy_ids = {id(c) for v in lazy.values() for c in v}
         for n in cfg.nodes:
             if n.ast is None or n.kind not in ("stmt", "test", "for", "with"):
                 continue
@@ -240,8 +247,10 @@ def refusal_precedes_queueing(chk: Check, repo: Repo, mr) -> None:
                 x = stack.pop()
                 if isinstance(x, (ast.FunctionDef, ast.AsyncFunctionDef, ast.Lambda, ast.ClassDef)):
                     continue
-                if isinstance(x, ast.Call):
+                if isinstance(x, ast.Call) and id(x) not in lazy_ids:
                     cs.append(x)
+                if isinstance(x, ast.Name) and isinstance(x.ctx, ast.Load) and x.id in lazy:
+                    cs.extend(lazy[x.id])
                 stack.extend(ast.iter_child_nodes(x))
             if not cs:
                 continue
